@@ -18,6 +18,10 @@ use crate::{
 pub fn conformance(w: &World, r: usize, e: &Edge) -> Vec<(String, String)> {
     let mut v = vec![];
     let InputKind::Step(input, policy) = e.input else { return v };
+    if let Some(p) = &e.out.panicked {
+        v.push(("replica_panic".into(), format!("on input '{}' the replica panicked - the node is built with panic = abort, so the process dies; the specification never aborts: {}", e.input_desc, p.lines().take(2).collect::<Vec<_>>().join(" "))));
+        return v;
+    }
     if policy.crash.is_some() {
         return v;
     }
